@@ -780,91 +780,235 @@ REGIONS = {
 }
 
 
-def run_to_crs_pyproj(R: Run):
-    """the real to_crs against a fresh pyproj Transformer, vertex by vertex (== on doubles), and there-and-back"""
-    import pyproj
+def _eq_nan(a: float, b: float) -> bool:
+    return a == b or (math.isnan(a) and math.isnan(b))
+
+
+def judge_to_crs(R: Run, gm, g, dst, dst_ref, fresh, truth_same: bool, opts: Dict[str, Any], case, sig: str,
+                 roundtrip: bool = False, known_key: Optional[str] = None):
+    """One real `g.to_crs(dst, **opts)` against an independent pyproj Transformer (`fresh`, built by the harness for
+    exactly this CRS pair): geometry type / ring structure / vertex order kept, every vertex == what pyproj gives for
+    the (densified, if a resolution is asked for) source vertex, result tagged with the target CRS (`dst_ref`: a fresh
+    pyproj object of the target definition); unchanged output is accepted only if the CRSs truly are the same."""
+    res = opts.get("resolution")
+    try:
+        with warnings.catch_warnings():
+            warnings.simplefilter("ignore")
+            with time_limit(10):
+                out = g.to_crs(dst, **opts)
+                base = g if res is None else g.segmented(res)
+    except BaseException as e:  # pylint: disable=broad-except
+        R.oracle(False, "to-crs-raises", case, f"to_crs({case.get('dst')}, {opts}) raised {e!r}", sig=sig)
+        return None
+    if out is g or truth_same:
+        # handed back untouched: right only when source and target are the same CRS for pyproj
+        ok = truth_same and (out is g or (skel_of(out.geom) == skel_of(base.geom)))
+        R.oracle(ok, known_key or "to-crs-unchanged-for-different-crs", case,
+                 f"to_crs {case.get('src')} -> {case.get('dst')} returned the geometry untouched (still tagged {g.crs!s:.40}) "
+                 "although pyproj says the two CRSs differ", sig=sig + "|same")
+        return out
+    rin, rout = rings_of(base.geom), rings_of(out.geom)
+    ok = skel_of(out.geom) == skel_of(base.geom) and len(rin) == len(rout)
+    bad = None if ok else f"structure {skel_of(base.geom)} -> {skel_of(out.geom)}"
+    if ok and not (out.crs is not None and out.crs.proj == dst_ref):
+        ok, bad = False, f"result tagged {out.crs!s:.60}"
+    if ok:
+        for ci, co in zip(rin, rout):
+            if len(ci) != len(co):
+                ok, bad = False, f"vertex count {len(ci)} (source, densified as requested) vs {len(co)}"
+                break
+            for (x, y), (u, v) in zip(ci, co):
+                eu, ev = fresh.transform(x, y)
+                if not (_eq_nan(u, eu) and _eq_nan(v, ev)):
+                    ok, bad = False, f"({x},{y}) -> ({u},{v}) but pyproj gives ({eu},{ev})"
+                    break
+            if not ok:
+                break
+    R.oracle(ok, "to-crs-differs-from-pyproj", case,
+             f"to_crs {case.get('src')} -> {case.get('dst')} {opts} ({case.get('kind')}): {bad}", sig=sig)
+    if res is not None and res > 0:
+        for c in rin:
+            if len(c) >= 2:
+                worst = max(d2(p, q) for p, q in zip(c[:-1], c[1:]))
+                scale_all = max([abs(F(v)) for p in c for v in p] + [Fraction(1)])
+                lim = F(res) * (1 + Fraction(1, 10**12)) + 8 * scale_all / 2**52
+                R.oracle(worst <= lim * lim, "densify-edge-longer-than-resolution", case,
+                         f"to_crs(resolution={res}): a source edge of {math.sqrt(float(worst)):.6g} was projected", sig="gap|to_crs")
+    if roundtrip and ok:
+        try:
+            with warnings.catch_warnings():
+                warnings.simplefilter("ignore")
+                back = out.to_crs(g.crs)
+            err = max((max(abs(p[0] - q[0]), abs(p[1] - q[1])) for ci, co in
+                       zip(rings_of(g.geom), rings_of(back.geom)) for p, q in zip(ci, co)), default=0.0)
+            R.oracle(err < 1e-6 and skel_of(back.geom) == skel_of(g.geom), "to-crs-round-trip-error", case,
+                     f"{case.get('src')} -> {case.get('dst')} -> back moves a vertex by {err:g} units", sig="roundtrip|" + sig)
+        except BaseException as e:  # pylint: disable=broad-except
+            R.oracle(False, "to-crs-raises", case, repr(e))
+    return out
+
+
+def _place(shp, region, rng, to_src):
+    """squeeze a template geometry into a lon/lat region and express it in the source CRS"""
     from shapely import affinity
-    from shapely import geometry as sg
     from shapely import ops as sops
+
+    x0, y0, x1, y1 = region
+    bx0, by0, bx1, by1 = shp.bounds if not shp.is_empty else (0, 0, 1, 1)
+    w, h = max(bx1 - bx0, 1e-9), max(by1 - by0, 1e-9)
+    fx, fy = (x1 - x0) * rng.uniform(0.2, 0.9) / w, (y1 - y0) * rng.uniform(0.2, 0.9) / h
+    ll = affinity.translate(affinity.scale(affinity.translate(shp, -bx0, -by0), fx, fy, origin=(0, 0)),
+                            x0 + rng.uniform(0, 0.1) * (x1 - x0), y0 + rng.uniform(0, 0.1) * (y1 - y0))
+    return sops.transform(lambda x, y: to_src.transform(x, y), ll)
+
+
+def churn_defs(i: int) -> str:
+    """per-tile ad-hoc projection: several hundred distinct CRS definitions that nobody keeps"""
+    lat0 = -60 + (i % 50) * 2.0 + (i // 50) * 0.01
+    lon0 = -170 + (i // 50) * 10.0
+    return f"+proj=laea +lat_0={lat0:.2f} +lon_0={lon0:.2f} +datum=WGS84 +units=m +no_defs"
+
+
+def run_crs_churn(R: Run, n: int) -> int:
+    """Process-global caches as a history: `n` distinct CRS definitions are constructed, used once with the one
+    long-lived CRS of the job and dropped; every conversion is still compared with a fresh pyproj Transformer."""
+    import gc
+
+    import pyproj
+
+    gm, crsmod = _mods()
+    CRS = crsmod.CRS
+    wgs84 = CRS("EPSG:4326")
+    ref84 = pyproj.CRS.from_epsg(4326)
+    ring = [(-50_000.0, -30_000.0), (-50_000.0, 40_000.0), (60_000.0, 40_000.0), (60_000.0, -30_000.0)]
+    hole = [(-10_000.0, -10_000.0), (10_000.0, -10_000.0), (0.0, 15_000.0)]
+    nbad = 0
+    for i in range(n):
+        d = churn_defs(i)
+        ref = pyproj.CRS.from_user_input(d)
+        crs = CRS(d)
+        poly = gm.polygon(ring, crs, hole)
+        case = {"fn": "crs-churn", "tile": i, "n": n, "src": d, "dst": "EPSG:4326", "kind": "polygon+hole"}
+        before = len(R.oracle_failures)
+        out = judge_to_crs(R, gm, poly, wgs84, ref84, pyproj.Transformer.from_crs(ref, ref84, always_xy=True), False, {},
+                           case, "churn|to-wgs84")
+        if out is not None and out is not poly:
+            case2 = {"fn": "crs-churn", "tile": i, "n": n, "src": "EPSG:4326", "dst": d, "kind": "polygon+hole"}
+            judge_to_crs(R, gm, out, crs, ref, pyproj.Transformer.from_crs(ref84, ref, always_xy=True), False, {}, case2,
+                         "churn|from-wgs84")
+        nbad += len(R.oracle_failures) > before
+        del crs, poly, out, ref
+        if i % 64 == 0:
+            gc.collect()
+        if nbad >= 5:
+            break  # demonstrated
+    return nbad
+
+
+def run_to_crs_pyproj(R: Run):
+    """the real to_crs against fresh pyproj Transformers: EPSG pairs x every keyword, CRSs without EPSG code in every
+    lazy state of `.epsg`, and after a churn of several hundred dropped CRS definitions"""
+    import pyproj
+    from pyproj.enums import WktVersion
+    from shapely import affinity
 
     gm, crsmod = _mods()
     rng = R.rng
     CRS = crsmod.CRS
-    codes = {"4326": ("world",), "3857": ("world",), "6933": ("world",), "3577": ("australia",), "32633": ("utm33",)}
+
+    # ---- A. EPSG pairs x option matrix (resolution x wrapdateline x check_and_fix), geographic and projected targets
+    codes = {"4326": ("world",), "3857": ("world",), "6933": ("world",), "3577": ("australia",), "32633": ("utm33",),
+             "4283": ("australia",), "4258": ("utm33",)}
     names = list(codes)
+    optsets = [dict(wrapdateline=w, check_and_fix=c) for w in (False, True) for c in (False, True)]
     for a, b in itertools.permutations(names, 2):
         regs = set(codes[a]) | set(codes[b])
         regs.discard("world")
         if len(regs) > 1:
-            continue  # 3577 <-> 32633: no common valid area
+            continue  # no common valid area
         reg = regs.pop() if regs else "world"
-        x0, y0, x1, y1 = REGIONS[reg]
         src, dst = CRS(f"EPSG:{a}"), CRS(f"EPSG:{b}")
-        to_src = pyproj.Transformer.from_crs("EPSG:4326", src.proj, always_xy=True)
-        fresh = pyproj.Transformer.from_crs(src.proj, dst.proj, always_xy=True)
-        for _ in range(R.pick(2, 12)):
+        ra, rb = pyproj.CRS.from_epsg(int(a)), pyproj.CRS.from_epsg(int(b))
+        to_src = pyproj.Transformer.from_crs("EPSG:4326", ra, always_xy=True)
+        fresh = pyproj.Transformer.from_crs(ra, rb, always_xy=True)
+        for _ in range(R.pick(1, 6)):
             kinds, _r = shapes_for(rng, rng.choice(["axis", "pyth"]))
             for kind, shp in kinds.items():
-                # squeeze the template geometry into the region (lon/lat), then express it in the source CRS
-                bx0, by0, bx1, by1 = shp.bounds
-                w, h = max(bx1 - bx0, 1e-9), max(by1 - by0, 1e-9)
-                fx, fy = (x1 - x0) * rng.uniform(0.2, 0.9) / w, (y1 - y0) * rng.uniform(0.2, 0.9) / h
-                ll = affinity.translate(affinity.scale(affinity.translate(shp, -bx0, -by0), fx, fy, origin=(0, 0)),
-                                        x0 + rng.uniform(0, 0.1) * (x1 - x0), y0 + rng.uniform(0, 0.1) * (y1 - y0))
-                insrc = sops.transform(lambda x, y: to_src.transform(x, y), ll)
+                insrc = _place(shp, REGIONS[reg], rng, to_src)
                 g = gm.Geometry(insrc, src)
                 span = max(insrc.bounds[2] - insrc.bounds[0], insrc.bounds[3] - insrc.bounds[1], 1e-9)
                 for res in (None, span / rng.choice([3, 7.5, 20])):
-                    case = {"fn": "to_crs", "kind": kind, "wkt": insrc.wkt, "src": a, "dst": b, "resolution": res}
-                    try:
-                        with warnings.catch_warnings():
-                            warnings.simplefilter("ignore")
-                            with time_limit(10):
-                                out = g.to_crs(dst, resolution=res)
-                                base = g if res is None else g.segmented(res)
-                    except BaseException as e:  # pylint: disable=broad-except
-                        R.oracle(False, "to-crs-raises", case, repr(e))
-                        continue
-                    rin, rout = rings_of(base.geom), rings_of(out.geom)
-                    ok = skel_of(out.geom) == skel_of(base.geom) and len(rin) == len(rout) and out.crs == dst
-                    bad = None
-                    if ok:
-                        for ci, co in zip(rin, rout):
-                            if len(ci) != len(co):
-                                ok, bad = False, "vertex count"
-                                break
-                            for (x, y), (u, v) in zip(ci, co):
-                                eu, ev = fresh.transform(x, y)
-                                if not ((u == eu or (math.isnan(u) and math.isnan(eu))) and
-                                        (v == ev or (math.isnan(v) and math.isnan(ev)))):
-                                    ok, bad = False, f"({x},{y}) -> ({u},{v}) but pyproj gives ({eu},{ev})"
-                                    break
-                            if not ok:
-                                break
-                    R.oracle(ok, "to-crs-differs-from-pyproj", case,
-                             f"to_crs EPSG:{a}->EPSG:{b} ({kind}): {bad or 'structure / CRS changed'}",
-                             sig=f"pyproj|{a}->{b}|" + ("plain" if res is None else "densified"))
-                    if res is not None:
-                        for c in rin:
-                            if len(c) >= 2:
-                                worst = max(d2(p, q) for p, q in zip(c[:-1], c[1:]))
-                                R.oracle(worst <= F(res) ** 2 * (1 + Fraction(1, 10**12)) ** 2,
-                                         "densify-edge-longer-than-resolution", case,
-                                         f"to_crs(resolution={res}): a source edge of {math.sqrt(float(worst)):.6g} was projected",
-                                         sig="gap|to_crs")
-                    # there and back
-                    if res is None:
-                        try:
-                            with warnings.catch_warnings():
-                                warnings.simplefilter("ignore")
-                                back = out.to_crs(src)
-                            err = max((max(abs(p[0] - q[0]), abs(p[1] - q[1])) for ci, co in
-                                       zip(rings_of(g.geom), rings_of(back.geom)) for p, q in zip(ci, co)), default=0.0)
-                            R.oracle(err < 1e-6 and skel_of(back.geom) == skel_of(g.geom), "to-crs-round-trip-error", case,
-                                     f"EPSG:{a}->EPSG:{b}->EPSG:{a} moves a vertex by {err:g} units", sig=f"roundtrip|{a}->{b}")
-                        except BaseException as e:  # pylint: disable=broad-except
-                            R.oracle(False, "to-crs-raises", case, repr(e))
-    # resolution="auto" on every kind (zero-area kinds used to hang)
+                    for o in optsets:
+                        if (o["wrapdateline"] or o["check_and_fix"]) and kind in ("point", "multipoint") and res is not None:
+                            continue
+                        opts = dict(o, resolution=res)
+                        if o["check_and_fix"]:
+                            # `maybe_fix` only leaves valid results alone: judge those
+                            try:
+                                exp = gm.Geometry(insrc, None).transform(lambda x, y: fresh.transform(x, y))
+                                if not exp.is_valid:
+                                    continue
+                            except Exception:  # pylint: disable=broad-except
+                                continue
+                        case = {"fn": "to_crs", "kind": kind, "wkt": insrc.wkt, "src": a, "dst": b, "resolution": res,
+                                "opts": {k: v for k, v in o.items()}}
+                        judge_to_crs(R, gm, g, dst, rb, fresh, False, opts, case,
+                                     f"pyproj|{a}->{b}|" + ("plain" if res is None else "densified") +
+                                     ("|wrapdateline" if o["wrapdateline"] else "") + ("|fix" if o["check_and_fix"] else "") +
+                                     ("|geographic" if rb.is_geographic else "|projected"),
+                                     roundtrip=(res is None and not o["wrapdateline"] and not o["check_and_fix"]))
+
+    # ---- B. CRSs WITHOUT an EPSG code, lossy / foreign spellings, every lazy state of `.epsg` on either side;
+    #         the target is handed over as that very object
+    p3857 = pyproj.CRS.from_epsg(3857)
+    defs = [
+        ("4326", "EPSG:4326"), ("32633", "EPSG:32633"), ("3857", "EPSG:3857"),
+        ("3857esri", p3857.to_wkt(version=WktVersion.WKT1_ESRI)),
+        ("sinu", "+proj=sinu +lon_0=0 +x_0=0 +y_0=0 +R=6371007.181 +units=m +no_defs"),
+        ("sinu15", "+proj=sinu +lon_0=15 +x_0=0 +y_0=0 +R=6371007.181 +units=m +no_defs"),
+        ("laea", "+proj=laea +lat_0=47.3 +lon_0=14.7 +x_0=1234.5 +y_0=-77 +ellps=GRS80 +units=m +no_defs"),
+        ("laea-shift", "+proj=laea +lat_0=47.3 +lon_0=14.7 +x_0=1244.5 +y_0=-77 +ellps=GRS80 +units=m +no_defs"),
+        ("utm33-nodatum", "+proj=utm +zone=33 +ellps=intl +units=m +no_defs"),
+        ("moll", "+proj=moll +lon_0=0 +x_0=0 +y_0=0 +datum=WGS84 +units=m +no_defs"),
+    ]
+    refs = {lab: pyproj.CRS.from_user_input(d) for lab, d in defs}
+    ents = []
+    for lab, d in defs:
+        ents.append((lab, lab, CRS(d), False))
+        if not d.upper().startswith("EPSG:"):
+            c = CRS(d)
+            _ = c.epsg
+            ents.append((lab + "+read", lab, c, True))
+    trs: Dict[Tuple[str, str], Any] = {}
+    to_srcs = {lab: pyproj.Transformer.from_crs("EPSG:4326", refs[lab], always_xy=True) for lab, _ in defs}
+    kinds, _r = shapes_for(rng, "pyth")
+    for (la, da, ca, lza), (lb, db, cb, lzb) in itertools.product(ents, ents):
+        truth_same = refs[da] == refs[db]
+        if (da, db) not in trs:
+            trs[(da, db)] = pyproj.Transformer.from_crs(refs[da], refs[db], always_xy=True)
+        # the one known way CRS.__eq__ errs on the unchanged tree (see C01): a lazily cached fuzzy EPSG code equal to the
+        # other side's code; it gets its own key so that it can never hide anything else
+        ea, eb = ca._epsg or 0, cb._epsg or 0  # pylint: disable=protected-access
+        lazy_code = (lza and not ca._str.startswith("EPSG:")) or (lzb and not cb._str.startswith("EPSG:"))  # pylint: disable=protected-access
+        known = "crs-eq-fuzzy-epsg-code-match" if (not truth_same and lazy_code and ea != 0 and ea == eb) else None
+        for kind in ("polygon+holes", "line") if R.quick else ("polygon+holes", "line", "collection"):
+            insrc = _place(kinds[kind], REGIONS["utm33"], rng, to_srcs[da])
+            g = gm.Geometry(insrc, ca)
+            span = max(insrc.bounds[2] - insrc.bounds[0], insrc.bounds[3] - insrc.bounds[1], 1e-9)
+            for res in (None, span / 5.5):
+                if res is not None and kind != "line":
+                    continue
+                case = {"fn": "to_crs", "kind": kind, "wkt": insrc.wkt, "src": la, "dst": lb, "resolution": res,
+                        "src_def": defs[[x[0] for x in defs].index(da)][1], "dst_def": defs[[x[0] for x in defs].index(db)][1]}
+                state = "both-read" if lza and lzb else "one-read" if lza or lzb else "unread"
+                judge_to_crs(R, gm, g, cb, refs[db], trs[(da, db)], truth_same, {"resolution": res}, case,
+                             f"codeless|{state}|" + ("same" if truth_same else "other"), known_key=known)
+
+    # ---- C. caches as a history
+    nbad = run_crs_churn(R, R.pick(420, 1500))
+    R.count("crs-churn-bad-tiles", nbad)
+
+    # ---- D. resolution="auto" on every kind (zero-area kinds used to hang)
     src, dst = CRS("EPSG:3857"), CRS("EPSG:4326")
     kinds, _ = shapes_for(rng, "axis")
     for kind, shp in kinds.items():
@@ -918,6 +1062,31 @@ def replay(R: Run, rec) -> int:
             print("output:", out[:12], "..." if len(out) > 12 else "", "max edge", math.sqrt(float(worst)), "resolution", r)
             bad = worst > F(r) ** 2 * (1 + Fraction(1, 10**12)) ** 2 or counts_of(coords, out) is None
             return 1 if bad else 0
+        if fn == "crs-churn":
+            before = len(R.oracle_failures)
+            nbad = run_crs_churn(R, int(case.get("n", 1500)))
+            for f in R.oracle_failures[before:][:3]:
+                print("tile", f["case"].get("tile"), f["what"][:300])
+            print(f"{nbad} tiles reprojected wrongly after the churn of CRS definitions")
+            return 1 if nbad else 0
+        if fn == "to_crs" and "src_def" in case:
+            import pyproj
+            from shapely import wkt
+
+            _, crsmod = _mods()
+            a, b = crsmod.CRS(case["src_def"]), crsmod.CRS(case["dst_def"])
+            if case["src"].endswith("+read"):
+                _ = a.epsg
+            if case["dst"].endswith("+read"):
+                _ = b.epsg
+            ra, rb = pyproj.CRS.from_user_input(case["src_def"]), pyproj.CRS.from_user_input(case["dst_def"])
+            g = gm.Geometry(wkt.loads(case["wkt"]), a)
+            before = len(R.oracle_failures)
+            judge_to_crs(R, gm, g, b, rb, pyproj.Transformer.from_crs(ra, rb, always_xy=True), ra == rb,
+                         {"resolution": case.get("resolution")}, case, "replay")
+            for f in R.oracle_failures[before:]:
+                print(f["key"], f["what"][:300])
+            return 1 if len(R.oracle_failures) > before else 0
         if fn in ("segmented", "to_crs"):
             from shapely import wkt
 
